@@ -526,6 +526,17 @@ def run(res, tier):
     if n_uo < 1:
         raise AnalysisBroken('UNIQUE-AGREE: no DoDirectChildLookup call with a locally split clause found (comma-list case)')
     clause_lookup_rules(res, fx, 'UNIQUE-AGREE')
+    # ---- DEFAULT-ROUTE (b): the default route is REPLACED when its parameters are set again
+    fud = fx.fn1(SRS + '::UpdateDefaultMessageRoute')
+    puts = [c for c in fud.walk() if c['k'] == 'CXXMemberCallExpr' and re.search(r'::(PutPathsFromMessage|PutPathString|PutPathFromString)$', c.get('q') or '') and c.receiver() is not None
+            and A.strip_casts(c.receiver()).get('n') == '_defaultMessageRoute']
+    clrs = [c for c in fud.walk() if c['k'] == 'CXXMemberCallExpr' and (c.get('q') or '').endswith('::Clear') and c.receiver() is not None and A.strip_casts(c.receiver()).get('n') == '_defaultMessageRoute']
+    if not puts:
+        raise AnalysisBroken('DEFAULT-ROUTE: UpdateDefaultMessageRoute: the refill of _defaultMessageRoute was not found')
+    okr = bool(clrs) and all(P.must_precede(fud, clrs, c) for c in puts)
+    res.ob('DEFAULT-ROUTE', fud.where(puts[0]), 'UpdateDefaultMessageRoute clears the old route on every path before it reads the new patterns', okr, function=fud.q, key='DEFAULT-ROUTE|%s|replace' % fud.q,
+           message='UpdateDefaultMessageRoute() can add the new patterns to _defaultMessageRoute without having cleared it: setting PR_NAME_KEYS again ADDS to the old default route, so Messages without '
+                   'keys are routed by the union of every route the client has set — sessions the current route does not select receive them, while GETPARAMETERS shows only the newest pattern')
     # ---- ONCE (b): the de-duplication table of the direct-lookup traversal spans all patterns of the Message
     from msa import cfg as C_
     f = fx.fn1(SRS + '::NodePathMatcher::DoTraversalAux')
